@@ -10,8 +10,11 @@ import (
 	"github.com/php-any/origami/parser"
 	"github.com/php-any/origami/runtime"
 	"github.com/php-any/origami/std"
+	netannotation "github.com/php-any/origami/std/net/annotation"
 	nethttp "github.com/php-any/origami/std/net/http"
+	"github.com/php-any/origami/std/net/websocket"
 	"github.com/php-any/origami/std/php"
+	"github.com/php-any/origami/std/system"
 	"github.com/php-any/origami/verifsim"
 )
 
@@ -141,6 +144,9 @@ func newEnv() *Env {
 	std.Load(e.VM)
 	php.Load(e.VM)
 	nethttp.Load(e.VM)
+	websocket.Load(e.VM)
+	netannotation.Load(e.VM)
+	system.Load(e.VM)
 	e.VM.SetThrowControl(func(acl data.Control) {
 		e.Throws = append(e.Throws, verifsim.TaskName()+": "+ctlString(acl))
 	})
